@@ -34,6 +34,18 @@ def run_check(pid, tier, root=None, write=True):
     except Exception as e:
         import traceback
         run.unknown('check-aborted', 'internal error: ' + traceback.format_exc()[-600:], rule='CORE')
+    if tier == 'thorough' and root is None:
+        # deeper tier: the checker itself is validated by single-instance mutants and behaviour-preserving twins
+        from . import selftest
+        st, summary = selftest.run_for_property(pid, quiet=True)
+        run.selftest = summary
+        run.rule_doc['SELFTEST'] = ('mutation self-test of this property\'s rules on scratch copies: every seeded single-'
+                                    'instance break is reported by the named rule, every behaviour-preserving twin is silent')
+        for d in summary['detail']:
+            k = 'selftest :: %s (%s, %s)' % (d['id'], d['rule'] or 'twin', d['kind'])
+            if d['result'] == 'ok': run.ok(k, rule='SELFTEST')
+            elif d['result'] == 'skipped': run.ok(k, 'skipped: source fragment no longer present', rule='SELFTEST')
+            else: run.unknown(k, 'self-test result %s' % d['result'], rule='SELFTEST')
     code = run.finalize(getattr(mod, 'LEVEL', 'other'), getattr(mod, 'EXPLANATION', ''), write=write)
     bad = [m for m in MODULES if m in sys.modules]
     if bad:
@@ -58,13 +70,7 @@ def main(argv):
     if tier not in ('quick', 'thorough'): tier = 'quick'
     if cmd == 'check':
         pid = args[0].upper()
-        code = run_check(pid, tier, root, write=not nowrite)
-        if tier == 'thorough' and code != 1:
-            from . import selftest
-            st = selftest.run_for_property(pid, root)
-            if st != 0 and code == 0:
-                code = 2
-        return code
+        return run_check(pid, tier, root, write=not nowrite)
     if cmd == 'all':
         worst = 0
         for pid in CLAIMED:
